@@ -80,7 +80,17 @@ def _catch(ctx, f):
     except BaseException as e:
         if ctx.dead is not None:
             raise ctx.dead
+        if type(e) is NameError and "is not defined" in str(e) and getattr(e, "name", None) and _in_code_under_test(e):
+            # the extracted code referred to a global the sidecar's environment does not supply (e.g. a module imported by a refactoring):
+            # no contract applies - undecided, never a verdict about the code
+            ctx.unsupported(f"code no longer matches the sidecar's contracts: {e}")
         return "raise", e
+
+
+def _in_code_under_test(e):
+    from ujvc.core import _raised_in_code_under_test
+
+    return _raised_in_code_under_test(e)
 
 
 def user_fn(*a, **k):  # module-level so that fully_qualified_name is stable
